@@ -1,0 +1,430 @@
+//go:build verif
+
+package jd
+
+import (
+	"encoding/json"
+	"fmt"
+	"reflect"
+	"strings"
+)
+
+// Property-level stand-ins for the v1 library (C17, C18). Bounded contracts only.
+
+type verifAbsent struct{}
+
+func verifPlain(n JsonNode) interface{} {
+	if isVoidV1(n) {
+		return verifAbsent{}
+	}
+	var v interface{}
+	if err := json.Unmarshal([]byte(n.Json()), &v); err != nil {
+		panic("verifPlain: " + err.Error())
+	}
+	return v
+}
+
+func verifPointerTokens(p string) ([]string, error) {
+	if p == "" {
+		return nil, nil
+	}
+	if p[0] != '/' {
+		return nil, fmt.Errorf("pointer must start with /")
+	}
+	parts := strings.Split(p[1:], "/")
+	for i, t := range parts {
+		t = strings.ReplaceAll(t, "~1", "/")
+		t = strings.ReplaceAll(t, "~0", "~")
+		parts[i] = t
+	}
+	return parts, nil
+}
+
+func verifArrayIndex(tok string, n int, allowEnd bool) (int, error) {
+	if tok == "-" {
+		if allowEnd {
+			return n, nil
+		}
+		return 0, fmt.Errorf("- not allowed here")
+	}
+	if tok == "" || (len(tok) > 1 && tok[0] == '0') {
+		return 0, fmt.Errorf("bad index %q", tok)
+	}
+	i := 0
+	for _, c := range tok {
+		if c < '0' || c > '9' {
+			return 0, fmt.Errorf("bad index %q", tok)
+		}
+		i = i*10 + int(c-'0')
+		if i > 1<<20 {
+			return 0, fmt.Errorf("index too large")
+		}
+	}
+	if i > n || (!allowEnd && i >= n) {
+		return 0, fmt.Errorf("index %d out of range", i)
+	}
+	return i, nil
+}
+
+func verifPtrGet(doc interface{}, toks []string) (interface{}, error) {
+	for _, t := range toks {
+		switch c := doc.(type) {
+		case map[string]interface{}:
+			v, ok := c[t]
+			if !ok {
+				return nil, fmt.Errorf("no member %q", t)
+			}
+			doc = v
+		case []interface{}:
+			i, err := verifArrayIndex(t, len(c), false)
+			if err != nil {
+				return nil, err
+			}
+			doc = c[i]
+		default:
+			return nil, fmt.Errorf("cannot descend into scalar")
+		}
+	}
+	return doc, nil
+}
+
+// verifPtrEdit applies add (mode 0) or remove (mode 1) at toks and returns the new document.
+func verifPtrEdit(doc interface{}, toks []string, mode int, val interface{}) (interface{}, error) {
+	if len(toks) == 0 {
+		if mode == 0 {
+			return val, nil
+		}
+		return verifAbsent{}, nil
+	}
+	t := toks[0]
+	switch c := doc.(type) {
+	case map[string]interface{}:
+		out := map[string]interface{}{}
+		for k, v := range c {
+			out[k] = v
+		}
+		if len(toks) == 1 {
+			if mode == 0 {
+				out[t] = val
+			} else {
+				if _, ok := out[t]; !ok {
+					return nil, fmt.Errorf("remove of missing member %q", t)
+				}
+				delete(out, t)
+			}
+			return out, nil
+		}
+		child, ok := c[t]
+		if !ok {
+			return nil, fmt.Errorf("no member %q", t)
+		}
+		nc, err := verifPtrEdit(child, toks[1:], mode, val)
+		if err != nil {
+			return nil, err
+		}
+		out[t] = nc
+		return out, nil
+	case []interface{}:
+		if len(toks) == 1 {
+			i, err := verifArrayIndex(t, len(c), mode == 0)
+			if err != nil {
+				return nil, err
+			}
+			out := []interface{}{}
+			out = append(out, c[:i]...)
+			if mode == 0 {
+				out = append(out, val)
+				out = append(out, c[i:]...)
+			} else {
+				out = append(out, c[i+1:]...)
+			}
+			return out, nil
+		}
+		i, err := verifArrayIndex(t, len(c), false)
+		if err != nil {
+			return nil, err
+		}
+		nc, err := verifPtrEdit(c[i], toks[1:], mode, val)
+		if err != nil {
+			return nil, err
+		}
+		out := append([]interface{}{}, c...)
+		out[i] = nc
+		return out, nil
+	}
+	return nil, fmt.Errorf("cannot descend into scalar or absent document")
+}
+
+// verifRFC6902 evaluates a JSON Patch document (RFC 6902: add, remove, replace, test) on doc.
+func verifRFC6902(doc interface{}, patch string) (interface{}, error) {
+	var ops []map[string]interface{}
+	if err := json.Unmarshal([]byte(patch), &ops); err != nil {
+		return nil, err
+	}
+	for _, op := range ops {
+		ps, _ := op["path"].(string)
+		toks, err := verifPointerTokens(ps)
+		if err != nil {
+			return nil, err
+		}
+		switch op["op"] {
+		case "test":
+			got, err := verifPtrGet(doc, toks)
+			if err != nil {
+				return nil, err
+			}
+			if !reflect.DeepEqual(got, op["value"]) {
+				return nil, fmt.Errorf("test failed at %s", ps)
+			}
+		case "remove":
+			if doc, err = verifPtrEdit(doc, toks, 1, nil); err != nil {
+				return nil, err
+			}
+		case "add":
+			if doc, err = verifPtrEdit(doc, toks, 0, op["value"]); err != nil {
+				return nil, err
+			}
+		case "replace":
+			if _, err := verifPtrGet(doc, toks); err != nil {
+				return nil, err
+			}
+			if doc, err = verifPtrEdit(doc, toks, 1, nil); err != nil {
+				return nil, err
+			}
+			if doc, err = verifPtrEdit(doc, toks, 0, op["value"]); err != nil {
+				return nil, err
+			}
+		default:
+			return nil, fmt.Errorf("unsupported op %v", op["op"])
+		}
+	}
+	return doc, nil
+}
+
+// verifMergePatch is the MergePatch pseudocode of RFC 7386.
+func verifMergePatch(target, patch interface{}) interface{} {
+	pm, ok := patch.(map[string]interface{})
+	if !ok {
+		return patch
+	}
+	tm, ok := target.(map[string]interface{})
+	out := map[string]interface{}{}
+	if ok {
+		for k, v := range tm {
+			out[k] = v
+		}
+	}
+	for name, value := range pm {
+		if value == nil {
+			delete(out, name)
+		} else {
+			out[name] = verifMergePatch(out[name], value)
+		}
+	}
+	return out
+}
+
+func verifUnabsent(x interface{}) interface{} {
+	if _, ok := x.(verifAbsent); ok {
+		return nil
+	}
+	return x
+}
+
+func isVoidV1(n JsonNode) bool {
+	_, ok := n.(voidNode)
+	return ok
+}
+
+func verifNullFree(n JsonNode) bool {
+	switch v := n.(type) {
+	case jsonNull:
+		return false
+	case jsonArray:
+		for _, e := range v {
+			if !verifNullFree(e) {
+				return false
+			}
+		}
+	case jsonObject:
+		for _, e := range v {
+			if !verifNullFree(e) {
+				return false
+			}
+		}
+	}
+	return true
+}
+
+func verifHasMeta(m []Metadata, want Metadata) bool {
+	for _, x := range m {
+		if x == want {
+			return true
+		}
+	}
+	return false
+}
+
+// verifV1Domain: merge only on null-free documents; setkeys members carry the key with a scalar value.
+func verifV1Domain(a, b JsonNode, metadata []Metadata) bool {
+	if verifHasMeta(metadata, MERGE) && (!verifNullFree(a) || !verifNullFree(b)) {
+		return false
+	}
+	if sk := getSetkeysMetadata(metadata); sk != nil {
+		return verifSetkeysOK(a, sk) && verifSetkeysOK(b, sk)
+	}
+	return true
+}
+
+func verifSetkeysOK(n JsonNode, sk *setkeysMetadata) bool {
+	switch v := n.(type) {
+	case jsonArray:
+		for _, e := range v {
+			if o, ok := e.(jsonObject); ok {
+				for k := range sk.keys {
+					kv, has := o[k]
+					if !has {
+						return false
+					}
+					switch kv.(type) {
+					case jsonArray, jsonObject:
+						return false
+					}
+				}
+			}
+			if !verifSetkeysOK(e, sk) {
+				return false
+			}
+		}
+	case jsonObject:
+		for _, e := range v {
+			if !verifSetkeysOK(e, sk) {
+				return false
+			}
+		}
+	}
+	return true
+}
+
+func verifEqualMeta(metadata []Metadata) []Metadata {
+	var out []Metadata
+	for _, m := range metadata {
+		if m != MERGE {
+			out = append(out, m)
+		}
+	}
+	return out
+}
+
+// verifV1RoundTrip (C17): patching a with the diff of a and b, directly or after Render and
+// ReadDiffString, yields a document equal to b; the diff is empty exactly when Equals holds.
+func verifV1RoundTrip(a, b JsonNode, metadata []Metadata) string {
+	d := a.Diff(b, metadata...)
+	eq := a.Equals(b, verifEqualMeta(metadata)...)
+	if (len(d) == 0) != eq {
+		return fmt.Sprintf("diff empty=%v but Equals=%v", len(d) == 0, eq)
+	}
+	r, err := verifCloneNode(a).Patch(d)
+	if err != nil {
+		return "direct patch fails: " + err.Error()
+	}
+	if !r.Equals(b, verifEqualMeta(metadata)...) {
+		return "direct patch gives " + verifShow(r)
+	}
+	d2, err := ReadDiffString(d.Render())
+	if err != nil {
+		return "rendered diff does not read back: " + err.Error()
+	}
+	r2, err := verifCloneNode(a).Patch(d2)
+	if err != nil {
+		return "patch after render/read fails: " + err.Error()
+	}
+	if !r2.Equals(b, verifEqualMeta(metadata)...) {
+		return "patch after render/read gives " + verifShow(r2)
+	}
+	return ""
+}
+
+func verifPointerExpressibleV1(n JsonNode) bool {
+	switch v := n.(type) {
+	case jsonObject:
+		for _, e := range v {
+			if !verifPointerExpressibleV1(e) {
+				return false
+			}
+		}
+	case jsonArray:
+		for _, e := range v {
+			if !verifPointerExpressibleV1(e) {
+				return false
+			}
+		}
+	}
+	return true
+}
+
+// verifV1Patch (C18): the JSON Patch rendered from the list-mode diff, evaluated independently on a,
+// yields b; read back with ReadPatchString and applied to a it also yields b.
+func verifV1Patch(a, b JsonNode) string {
+	if isVoidV1(a) || isVoidV1(b) {
+		return ""
+	}
+	d := a.Diff(b)
+	p, err := d.RenderPatch()
+	if err != nil {
+		return "RenderPatch: " + err.Error()
+	}
+	ref, err := verifRFC6902(verifPlain(a), p)
+	if err != nil {
+		return "independent evaluation fails: " + err.Error() + " on " + p
+	}
+	if !reflect.DeepEqual(verifUnabsent(ref), verifUnabsent(verifPlain(b))) {
+		return fmt.Sprintf("independent evaluation gives %v", ref)
+	}
+	d2, err := ReadPatchString(p)
+	if err != nil {
+		return "ReadPatchString: " + err.Error()
+	}
+	r, err := verifCloneNode(a).Patch(d2)
+	if err != nil {
+		return "patch after read back fails: " + err.Error()
+	}
+	if !r.Equals(b) {
+		return "patch after read back gives " + verifShow(r)
+	}
+	return ""
+}
+
+// verifV1Merge (C18): same for the JSON Merge Patch rendering of a merge-mode diff.
+func verifV1Merge(a, b JsonNode) string {
+	if isVoidV1(a) || isVoidV1(b) || !verifNullFree(a) || !verifNullFree(b) || a.Equals(b) {
+		return ""
+	}
+	d := a.Diff(b, MERGE)
+	m, err := d.RenderMerge()
+	if err != nil {
+		return "RenderMerge: " + err.Error()
+	}
+	var patch interface{}
+	if err := json.Unmarshal([]byte(m), &patch); err != nil {
+		return "merge patch is not JSON: " + m
+	}
+	ref := verifMergePatch(verifPlain(a), patch)
+	if !reflect.DeepEqual(ref, verifPlain(b)) {
+		return fmt.Sprintf("RFC 7386 evaluation of %s gives %v", m, ref)
+	}
+	d2, err := ReadMergeString(m)
+	if err != nil {
+		return "ReadMergeString: " + err.Error()
+	}
+	r, err := verifCloneNode(a).Patch(d2)
+	if err != nil {
+		return "patch after read back fails: " + err.Error()
+	}
+	if !r.Equals(b) {
+		return "patch after read back gives " + verifShow(r)
+	}
+	return ""
+}
+
+var _ = strings.Contains
